@@ -52,6 +52,8 @@ partial def showV : V → String
   | .slice a b c => "s(" ++ showV a ++ "," ++ showV b ++ "," ++ showV c ++ ")"
   | .tup2 a b => "(" ++ showV a ++ ";" ++ showV b ++ ")"
   | .tup3 a b c => "(" ++ showV a ++ ";" ++ showV b ++ ";" ++ showV c ++ ")"
+  | .nil => "()"
+  | .cons a b => "(" ++ ";".intercalate ((a :: (b.toList?.getD [])).map showV) ++ ")"
 
 def showErr : Err → String
   | .typeError => "ERR:TypeError"
@@ -76,5 +78,11 @@ def parseV? (s : String) : Option V :=
     | some [a, b, c] => some (.slice (V.ofOptInt a) (V.ofOptInt b) (V.ofOptInt c))
     | _ => none
   else none
+
+/-- a flat list argument `L<tok>;<tok>;…` (`L` alone = empty list) -/
+def parseVL? (s : String) : Option V :=
+  if s = "L" then some .nil
+  else if s.startsWith "L" then (((s.drop 1).toString.splitOn ";").mapM parseV?).map V.ofList
+  else parseV? s
 
 end Nb.Drv
